@@ -75,6 +75,24 @@ class ClassNull:
                     elif isinstance(n.value, ast.IfExp) and isinstance(n.value.test, ast.Name) \
                             and _none_const(n.value.orelse) and not _may_be_none_syntactic(n.value.body):
                         slots.setdefault(n.value.test.id, []).append(t)
+            # the statement form of the same: if flag: self.a = <value> ... else: self.a = None ...
+            for n in walk_own(init.node):
+                if isinstance(n, ast.If) and n.orelse:
+                    test, on_true, on_false = n.test, n.body, n.orelse
+                    if isinstance(test, ast.UnaryOp) and isinstance(test.op, ast.Not):
+                        test, on_true, on_false = test.operand, n.orelse, n.body
+                    if not isinstance(test, ast.Name):
+                        continue
+                    def assigned(block):
+                        out = {}
+                        for st in block:
+                            if isinstance(st, ast.Assign) and len(st.targets) == 1 and is_self_attr(st.targets[0]):
+                                out["self." + st.targets[0].attr] = st.value
+                        return out
+                    a_t, a_f = assigned(on_true), assigned(on_false)
+                    for t, v in a_t.items():
+                        if t in a_f and _none_const(a_f[t]) and not _may_be_none_syntactic(v):
+                            slots.setdefault(test.id, []).append(t)
             for cond, fl in flags.items():
                 if cond in slots:
                     for flag in fl:
